@@ -39,7 +39,7 @@ CHECKS = {
     "C03": dict(
         level="model_checking",
         runs=_runs(),
-        deadline=dict(quick=300, thorough=1500),
+        deadline=dict(quick=600, thorough=2250),
         parallel_runs=PAR,
         bounds=dict(
             quick="24 builds (16 subsets of {SHA-NI+SSSE3, SSE2, SSE4.2, AES-NI}; the 8 with SSE4.2 also without the 64-bit crc32 instruction) x every run-time "
